@@ -2,7 +2,8 @@
 from vlib import common
 
 GO = dict(module="core", pkg="internal/protocol", pkgname="protocol",
-          files={"zz_verif_c04_test.go": "c04/c04_test.go"}, run="TestVerifC04")
+          files={"zz_verif_c04_test.go": "c04/c04_test.go", "zz_verif_c04_conc_test.go": "c04/c04_conc_test.go"},
+          run="TestVerifC04")
 PARAMS_NAME = "ParamsC04"
 HEADER = ("From Hy Require Import lib.Harness lib.Reader model.C04_Framing corr.C04_Corr.\n"
           "From Coq Require Import ZArith.\nLocal Open Scope N_scope.\n")
@@ -13,12 +14,18 @@ RULE = ("seeded generator: ReadTCPRequest / server frame-type read + ReadTCPRequ
         "field boundaries +-1, random k-splits with zero reads; trailing payload 0/1/100 bytes; truncations and injected errors at "
         "every offset of short frames; random garbage. WriteTCPRequest/WriteTCPResponse with the drawn padding read back from the "
         "bytes and the frame re-read through the real reader in chunks with trailing payload. varintPut at the width boundaries on "
-        "buffers of every length 0..9. Non-trivial = well-formed frame read under a non-trivial chunking / non-minimal width / with "
+        "buffers of every length 0..9. CONCURRENCY: 2-4 frames (req/srv/resp mixed, equal and different value lengths, some rejected "
+        "or truncated) parsed at the same time by one goroutine each over gated scripted readers that park between length and value, "
+        "inside the value, between value and padding, inside the padding; the gating order (victim parked while the others run to the "
+        "end, round robin, nested, random) is part of the case and is executed by the harness as the scheduler (one P, no GC, so per-P "
+        "caches are handed from parser to parser), plus a free-running mode; every stream is judged against what that stream carried "
+        "and compared with the sequential model of its own script; thorough tier: the same cases under -race. Non-trivial = well-formed frame read under a non-trivial chunking / non-minimal width / with "
         "trailing payload, or an over-limit frame, or a writer round trip. Distinct = distinct JSON case.")
 ASSUMPTIONS = [
     "the stream handed to the readers has no ReadByte method (utils.QStream has none), so quicvarint.NewReader wraps it in the one-byte-at-a-time byteReader",
     "io.ReadFull / io.CopyN / io.Discard / io.LimitedReader behave as in the Go 1.25 source they were transcribed from (lib/Reader.v)",
     "the io.Reader honours its contract (returns at most len(p) bytes); scripts are finite (an exhausted script reads as io.EOF)",
+    "concurrent parsers share no state: each reads only its own stream and the modelled functions use no package-level state, so a concurrent run is modelled as the sequential runs of its streams (checked on every run by the concurrency class of the harness: interleavings at the gates of the scripted readers, not every instruction-level interleaving)",
 ]
 TRUSTED = ["modelled rather than verified: core/internal/protocol/proxy.go TCP framing functions and the Go io helpers (hand transcription in coq/model/C04_Framing.v and coq/lib/Reader.v)"]
 PER_SHARD = 170
@@ -281,6 +288,7 @@ def gen(rng, tier):
                         cases.append({"k": "wr", "fn": fn, "ok": ok, "a": rng.randrange(256), "b": rng.randrange(256), "n": n,
                                       "trail": rng.choice([0, 1, 100]), "cs": rng.choice([0, 1, 2, 3, 7, 64, 700]) if n < 300 else rng.choice([0, 5, 63, 700]),
                                       "zero": rng.choice([0, 1, 2, 5])})
+    cases += gen_conc(rng, scale)
     # --- (7) varintPut at the width boundaries, buffers of every small length
     for v in (0, 1, 63, 64, 255, 16383, 16384, 2**30 - 1, 2**30, 2**32, MAXV, MAXV + 1, 2**63, 2**64 - 1):
         for bl in (0, 1, 2, 3, 4, 5, 7, 8, 9):
@@ -289,6 +297,89 @@ def gen(rng, tier):
         v = rng.choice([rng.randrange(2**6), rng.randrange(2**14), rng.randrange(2**30), rng.randrange(2**62), rng.randrange(2**64)])
         cases.append({"k": "vp", "v": str(v), "bl": rng.choice([minw(min(v, MAXV)), 8, 9, 12])})
     return cases
+
+
+def gen_conc(rng, scale):
+    """K frames parsed concurrently over gated readers (see harness/go/c04/c04_conc_test.go)."""
+    out = []
+    nop = {"cls": "nopanic", "val_seg": -1, "st": False, "consumed": 0}
+    SCHED = ["victim", "victim", "victim-all", "rr", "nested", "random", "reverse"]
+    for it in range(70 * scale):
+        K = rng.choice([2, 2, 3, 4])
+        same_fn = rng.random() < 0.5
+        fn0 = rng.choice(["req", "srv", "resp"])
+        streams = []
+        for i in range(K):
+            fn = fn0 if same_fn else rng.choice(["req", "srv", "resp"])
+            r = rng.random()
+            if r < 0.08:
+                # a rejected frame among the others: over-limit length
+                pre = [lit(b"\x44\x01")] if fn == "srv" else [lit(bytes([rng.choice([0, 1])]))] if fn == "resp" else []
+                v = rng.choice([2049, 4096, 2**20])
+                w = rng.choice(widths(v))
+                segs = pre + [vi(w, v), gen_seg(rng, 50)]
+                plen = total_len(pre)
+                exp = {"cls": "invalid", "val_seg": -1, "st": False, "consumed": plen + w, "maxreq": 1, "declared": str(v)}
+                bounds = [plen, plen + w]
+            elif r < 0.14:
+                # a frame cut short by EOF inside the value / padding
+                L = rng.choice([5, 64])
+                segs, bounds, exp = frame(rng, fn, L, rng.choice(widths(L)), 20, 1, 0)
+                stream = b"".join(seg_bytes(x) for x in segs)
+                cutat = rng.choice([bounds[-3] + 2, bounds[-2], bounds[-1] - 3])
+                segs, exp = [lit(stream[:cutat])], dict(nop)
+                bounds = [b for b in bounds if b < cutat]
+            else:
+                L = rng.choice([1, 5, 20, 20, 63, 64, 200, 2048]) if fn != "resp" else rng.choice([0, 1, 5, 20, 20, 64, 200, 2048])
+                P = rng.choice([0, 1, 10, 64, 300])
+                segs, bounds, exp = frame(rng, fn, L, rng.choice(widths(L)), P, rng.choice(widths(P)), rng.choice([0, 0, 3]))
+            T = total_len(segs)
+            # gate positions: the field boundaries (the end of the value above all), sometimes inside a field
+            gatepos = set()
+            for b in bounds:
+                if 0 < b < T and rng.random() < 0.7:
+                    gatepos.add(b)
+            if exp["cls"] == "ok" and exp["val_seg"] >= 0:
+                vend = sum(len(seg_bytes(x)) for x in segs[:exp["val_seg"] + 1])
+                if vend < T:
+                    gatepos.add(vend)            # between the value and the padding length
+                if rng.random() < 0.3:
+                    gatepos.add(max(1, vend - 1))  # inside the value
+            if rng.random() < 0.3 and T > 2:
+                gatepos.add(rng.randrange(1, T))
+            extra = set(rng.randrange(1, max(2, T)) for _ in range(rng.choice([0, 0, 1, 3])))
+            ps = sorted(p for p in (gatepos | extra) if 0 < p < T)
+            cuts = cuts_from_positions(ps, T)
+            gates = [j + 1 for j, p in enumerate(ps) if p in gatepos]
+            if rng.random() < 0.15:
+                gates.append(0)                  # parked before its first byte
+            streams.append({"fn": fn, "segs": segs, "cuts": cuts, "gates": sorted(gates), "exp": exp})
+        kind = SCHED[it % len(SCHED)]
+        ng = [len(s["gates"]) + 1 for s in streams]
+        if kind == "victim":          # stream 0 runs to its first gates, the others run to the end, then stream 0 goes on
+            v = rng.randrange(K)
+            sched = [v] * rng.randint(1, ng[v] - 1 if ng[v] > 1 else 1)
+            for j in range(K):
+                if j != v:
+                    sched += [j] * ng[j]
+            sched += [v] * ng[v]
+        elif kind == "victim-all":    # every stream is parked at each of its gates while all the others run to the end
+            sched = []
+            for j in range(K):
+                sched.append(j)
+            for j in reversed(range(K)):
+                sched += [j] * ng[j]
+        elif kind == "rr":
+            sched = [j for _ in range(max(ng)) for j in range(K)]
+        elif kind == "nested":
+            sched = list(range(K)) + list(reversed(range(K))) + list(range(K)) * max(ng)
+        elif kind == "reverse":
+            sched = [j for _ in range(max(ng)) for j in reversed(range(K))]
+        else:
+            sched = [rng.randrange(K) for _ in range(sum(ng) + 2)]
+        mode = "free" if (it % 10 == 9) else "serial"
+        out.append({"k": "conc", "mode": mode, "g": kind if mode == "serial" else "free", "streams": streams, "sched": sched})
+    return out
 
 
 # ---------------------------------------------------------------- Coq terms
@@ -305,8 +396,22 @@ def seg_term(s):
     return "SVar %d %s" % (s["w"], s["v"])
 
 
+def obs_term(o):
+    return "(mkObs %d %s %d %d %d %d %d %d %d)" % (CLS[o["cls"]], "true" if o["st"] else "false", o["vlen"], o["vdg"],
+                                                   o["llen"], o["ldg"], o["req"], o["max"], o["calls"])
+
+
 def to_coq(c, o):
     k = c["k"]
+    if k == "conc":
+        if len(o.get("streams") or []) != len(c["streams"]):
+            return None
+        ts = []
+        for s, so in zip(c["streams"], o["streams"]):
+            segs = "[" + ";".join(seg_term(x) for x in s["segs"]) + "]"
+            cuts = "[" + ";".join(str(4 * a + b) for a, b in s["cuts"]) + "]"
+            ts.append("(mkCS %s %s %s %s)" % (FN[s["fn"]], segs, cuts, obs_term(so)))
+        return "CConc [%s]" % ";".join(ts)
     if k == "rd":
         segs = "[" + ";".join(seg_term(s) for s in c["segs"]) + "]"
         cuts = "[" + ";".join(str(4 * a + b) for a, b in c["cuts"]) + "]"
@@ -329,6 +434,8 @@ def to_coq(c, o):
 
 def klass(c, o):
     k = c["k"]
+    if k == "conc":
+        return "conc:K=%d:%s" % (len(c["streams"]), c["g"])
     if k == "rd":
         return "rd:%s:%s:%s" % (c["fn"], c["g"], o.get("cls"))
     if k == "wr":
@@ -338,6 +445,8 @@ def klass(c, o):
 
 def nontrivial(c, o):
     k = c["k"]
+    if k == "conc":
+        return any(s["gates"] for s in c["streams"])
     if k == "rd":
         e = c["exp"]["cls"]
         if e == "invalid":
@@ -396,13 +505,33 @@ def eval_cases_linear(ctx, prefix, header, terms, per_shard=250, timeout=900):
 
 
 def run(ctx):
+    import random
     import sys
-    orig = common.eval_cases
+    orig_eval, orig_finish = common.eval_cases, common.finish
+    extra = []
+    if ctx.tier != "quick":
+        # the concurrency class once more under the race detector (same seed, so the same cases as the main run)
+        cc = [c for c in gen(random.Random(ctx.seed), ctx.tier) if c["k"] == "conc"][:600]
+        rok, routs, _, rlog = common.run_go_cases(ctx, GO, cc, tag="race", race=True)
+        ctx.say("concurrency class under -race: %s (%d cases)" % ("ok" if rok else "FAILED", len(cc)))
+        for c, o in zip(cc, routs):
+            if o.get("ok") is False:
+                extra.append({"what": "conc (-race): %s" % o.get("why"), "replay": {"case": c, "impl": o},
+                              "fingerprint": None, "found_input": True})
+        if not rok and not extra:
+            extra.append({"what": "concurrency harness fails under -race: " + rlog.strip()[-600:],
+                          "replay": {"broken": "race", "log": rlog[-4000:]}, "found_input": False, "fingerprint": None})
+
+    def finish_more(ctx_, pinfo, cov, violations, *a, **kw):
+        return orig_finish(ctx_, pinfo, cov, list(violations) + extra, *a, **kw)
+
     common.eval_cases = eval_cases_linear   # only the layout of the generated cases files differs
+    common.finish = finish_more
     try:
         return common.run_case_check(ctx, sys.modules[__name__])
     finally:
-        common.eval_cases = orig
+        common.eval_cases = orig_eval
+        common.finish = orig_finish
 
 
 def replay(ctx, path):
